@@ -3,6 +3,7 @@ package yaml
 import (
 	"bytes"
 	"errors"
+	"strconv"
 	"strings"
 
 	"github.com/goccy/go-yaml"
@@ -51,7 +52,25 @@ func Update(f *ast.File, path *yaml.Path, value interface{}) error {
 		return err
 	}
 
+	// the encoder leaves a few strings plain that do not read back as strings
+	// (e.g. "- item" is a sequence, "? q" a mapping, ".inf" a float): quote those
+	if s, ok := value.(string); ok && !readsBackAs(b, s) {
+		b = []byte(strconv.Quote(s) + "\n")
+	}
+
 	return path.ReplaceWithReader(f, bytes.NewReader(b))
+}
+
+// readsBackAs reports whether the yaml in b decodes to the string s.
+func readsBackAs(b []byte, s string) bool {
+	var back interface{}
+	if err := yaml.Unmarshal(b, &back); err != nil {
+		return false
+	}
+
+	got, ok := back.(string)
+
+	return ok && got == s
 }
 
 // MarshalFile returns the representation of the ast.File to a byte slice.
